@@ -531,6 +531,16 @@ def pipeline(ctx, prop):
         spans = r[1]
         stats['none_results'] += r[2]
         stats['entities'] += len(spans)
+        if len(r) > 3 and r[3]:
+            # DateTimeModel.parse caught and dropped an exception on this query: the entities are those found before it
+            sw = ctx.extra.setdefault('swallowed_exceptions', {'queries_with_swallowed_exception': 0,
+                                                               'by_exception_type_and_culture': {}, 'examples': []})
+            sw['queries_with_swallowed_exception'] += 1
+            k = '%s:%s' % (r[3][1], t[2])
+            sw['by_exception_type_and_culture'][k] = sw['by_exception_type_and_culture'].get(k, 0) + 1
+            if len(sw['examples']) < 8:
+                sw['examples'].append({'culture': t[2], 'query': t[3], 'reference': str(t[4]), 'stage': r[3][0],
+                                       'exception': '%s: %s' % (r[3][1], r[3][2])})
         if spans:
             ctx.nontriv((t[1], t[2], t[3]))
         if prop == 'C01':
@@ -782,9 +792,28 @@ def unit_level(ctx, prop, tasks):
                                       'model': a}, property_fails=False)
         if k == 'mext':
             parts = a.split('|')
-            if len(parts) == 3:
+            if len(parts) >= 3:
                 d = hyp.setdefault('mext.ChainNoCrossing', {'true': 0, 'false': 0, 'n': 0})
                 d['true' if parts[1] == '1' else 'false'] += 1
+            if len(parts) >= 4:
+                # the second hypothesis of mergedExtract_disjoint(_monitored): the modifier extensions stay clear of each
+                # other (Lean `extClearB` = `ExtClear`, theorem extClearB_iff) — evaluated on this recorded call
+                d = hyp.setdefault('mext.ExtClear', {'true': 0, 'false': 0, 'n': 0})
+                d['true' if parts[3] == '1' else 'false'] += 1
+                if o.get('n_mods'):
+                    d['n'] += 1          # calls in which add_mod really extended an entity
+                if parts[3] != '1':
+                    # the theorem does not cover this call: two entities apart before add_mod, overlapping after it
+                    ctx.report('correspondence', 'extclear-violated:%s' % o.get('ext'),
+                               'add_mod of %s made two disjoint entities overlap on %r (model output %s): hypothesis ExtClear of '
+                               'mergedExtract_disjoint is false on this call' % (o.get('ext'), o.get('src'), parts[0][:200]),
+                               failing_input={'task': o.get('task'), 'op': o['op'], 'out_spans': o.get('out_spans')},
+                               property_fails=False)
+                # the theorem's consequence on the implementation's own output (it equals the model's when `ok`)
+                if parts[1] == '1' and parts[3] == '1' and not (o.get('hyp') or {}).get('disjoint_out', True):
+                    ctx.report('correspondence', 'mext-theorem-consequence',
+                               'ChainNoCrossing and ExtClear hold but the real output overlaps: ' + o['op'][:300],
+                               failing_input={'task': o.get('task'), 'op': o['op']}, property_fails=False)
         if k == 'addto':
             parts = a.split('|')
             if len(parts) == 4:
@@ -891,6 +920,24 @@ def preprocess_unit(ctx, prop):
                                                common.uncps(keep)[:60] if not keep.startswith('err') else keep),
                        failing_input={'query': q, 'case_sensitive': cs, 'implementation': impl},
                        property_fails=len(impl) != len(q))
+    # hypothesis `habs` of RTV.Merged.spanOK_of_preprocessed_slice (Props/C01.lean): the property's normalisation absorbs the
+    # preprocessing, code point by code point — norm(preprocess(c)) = norm(c) wherever preprocess keeps one code point
+    n_abs, bad_abs = 0, []
+    for c in range(0x110000):
+        if 0xD800 <= c <= 0xDFFF:
+            continue
+        ch = chr(c)
+        pc = QP.preprocess(ch)
+        if len(pc) != 1:
+            continue
+        n_abs += 1
+        if spanpipe.norm_char(pc) != spanpipe.norm_char(ch):
+            bad_abs.append(c)
+    ctx.count('preprocess:norm-absorbs-preprocess (code points)', n_abs)
+    if bad_abs:
+        ctx.report('correspondence', 'norm-does-not-absorb-preprocess',
+                   'norm(preprocess(c)) != norm(c) for %d code points, e.g. %s' % (len(bad_abs), ', '.join('U+%04X' % c for c in bad_abs[:8])),
+                   failing_input={'code_points': bad_abs[:50]}, property_fails=False)
     variant = 'repaired (per-character)' if follows_keep == len(meta) else (
         'current (whole-string str.lower())' if follows_full == len(meta) else 'neither')
     ctx.extra['preprocess'] = {'cases': len(meta), 'agrees_with_current_variant': follows_full,
